@@ -208,6 +208,34 @@ def targeted_programs(dev):
                         "args": {"srack": "S", "s1": I(1), "s2": I(8), "drack": "D", "d1": I(1), "d2": I(96), "vol": ((M * 100) // k + 10) * 10, "md": I(12)}})
         h["ops"] = ops
         progs.append(h)
+    # whole numbers in other representations (3.0, numpy.int64(3)): if accepted, the record carries the plain integer
+    lws = [gen.mk_plate("plate", 2, 2, 0, 10, [0, 0, 0, 0])]
+    h = gen.header("emit/foreign-numbers", dev, Fraction(1), 950, lws, flags={"comp": False, "norm": False, "robot": False})
+    N = lambda cls, v: {"cls": cls, "v": v}
+    ops = []
+    for cls in ("intfloat", "npint"):
+        ops += [{"op": "emit", "fn": "aspirate_well", "args": {"rack": "R", "pos": N(cls, 3), "vol": 10000}},
+                {"op": "emit", "fn": "dispense_well", "args": {"rack": "R", "pos": N(cls, 96), "vol": 12340}},
+                {"op": "emit", "fn": "wash", "args": {"scheme": N("npint" if cls == "npint" else "int", 2)}},  # wash(2.0) writes "W2.0;": observed, not claimed
+                {"op": "emit", "fn": "commit", "args": {}},
+                {"op": "emit", "fn": "set_diti", "args": {"idx": N(cls, 2)}},
+                {"op": "emit", "fn": "reagent_distribution",
+                 "args": {"srack": "S", "s1": N(cls, 1), "s2": N(cls, 8), "drack": "D", "d1": N(cls, 1), "d2": N(cls, 12), "vol": 50000, "md": N(cls, 3), "reuse": N(cls, 2)}},
+                {"op": "emit", "fn": "aspirate_well", "args": {"rack": "R", "pos": N(cls, 0), "vol": 10000}}]
+    h["ops"] = ops
+    progs.append(h)
+    # few destination wells (also after exclusions): the multi-dispense count depends on volume and max_volume only
+    lws = [gen.mk_plate("plate", 2, 2, 0, 10, [0, 0, 0, 0])]
+    h = gen.header("emit/multidisp-few-wells", dev, Fraction(1), 950, lws, flags={"comp": False, "norm": False, "robot": False})
+    ops = []
+    for d1, d2, excl in ((1, 3, None), (1, 2, None), (5, 5, None), (1, 12, [2, 3, 4, 5, 6, 7, 8, 9]), (1, 4, [2]), (10, 13, [11, 12]), (1, 96, list(range(2, 96)))):
+        for vol, md in ((400, 6), (100, 6), (300, 3), (300, 4), (950, 2), (475, 2), (476, 2), (10, 12)):
+            g = {"srack": "S", "s1": I(1), "s2": I(8), "drack": "D", "d1": I(d1), "d2": I(d2), "vol": vol * 1000, "md": I(md)}
+            if excl is not None:
+                g["excl"] = list(excl)
+            ops.append({"op": "emit", "fn": "reagent_distribution", "args": g})
+    h["ops"] = ops
+    progs.append(h)
     # set_diti: at the start, after a break, elsewhere; decontaminate and wash in DiTi mode
     for diti in (False, True):
         lws = [gen.mk_plate("plate", 2, 2, 0, 10, [0, 0, 0, 0])]
